@@ -10,6 +10,7 @@ def rd(n):
     return (S / n).read_text().rstrip() + "\n\n"
 
 
+AXIOMS = {}
 props = [json.loads(l) for l in (V / "properties.jsonl").read_text().splitlines() if l.strip()]
 out = rd("a0_header.md")
 out += "# Part I — approach\n\n" + rd("s01_what.md") + rd("s02_why.md") + rd("a3_architecture.md") + rd("s04_conventions.md")
@@ -26,9 +27,12 @@ for p in props:
     if ev.exists():
         try:
             e = json.loads(ev.read_text())
-            out += "*Last committed evidence:* %d/%d obligations discharged, %d cases (%d distinct non-trivial), tier %s.\n\n" % (
+            out += "*Last committed evidence:* %d/%d obligations discharged, %d cases (%d distinct non-trivial), tier %s.  " % (
                 e["coverage"].get("discharged", 0), e["coverage"].get("obligations", 0), e["coverage"].get("evaluations", 0),
                 e["coverage"].get("distinct_nontrivial", 0), e["tier"])
+            axs = e["coverage"].get("axioms_reported_by_Print_Assumptions") or []
+            out += ("*Axioms (Print Assumptions):* " + (", ".join("`%s`" % a for a in axs) if axs else "none - every theorem is closed under the global context") + ".\n\n")
+            AXIOMS[pid] = axs
         except Exception:
             out += "\n\n"
     else:
@@ -76,5 +80,7 @@ for d in sorted((V / "seeded").iterdir()):
 out += "\n--------------------------------------------------------------------------------\n\n" + rd("s99_appendix.md")
 out += "## Appendix B. The plan as written before the code\n\nKept for reference: the per-property design and the list of suspected defects from the design round.\n\n"
 out += re.sub(r"(?m)^## ", "### ", rd("s05_plan_per_property.md")) + re.sub(r"(?m)^## ", "### ", rd("s06_plan_findings.md"))
+summary = "; ".join("%s: %s" % (k, ", ".join(v)) for k, v in sorted(AXIOMS.items()) if v) or "none"
+out = out.replace("@@AXIOMS_BY_PROPERTY@@", summary)
 (V / "DESIGN.md").write_text(out)
 print("DESIGN.md: %d lines" % out.count("\n"))
